@@ -110,6 +110,20 @@ def snapshot(exp, folders=()):
                                     for p, v in g._placeholders.items())
     except Exception as e:
         snap['placeholders'] = {'error': type(e).__name__}
+    # the dataflow as the consumers see it: for every data reference of every component the components that actually
+    # produce the data (DataReference.true_reference_to_component_id: a reference to a looped component is a reference to
+    # its instance in the LATEST iteration, a :loopref one to all instances; None = a direct reference to a path)
+    snap['producers'] = {}
+    for n in snap['nodes']:
+        try:
+            spec = gr.nodes[n]['componentSpecification']
+            out = []
+            for ref in spec.dataReferences:
+                ids = ref.true_reference_to_component_id(g)
+                out.append([ref.stringRepresentation, None if ids is None else sorted('stage%d.%s' % (s, c) for s, c in ids)])
+            snap['producers'][n] = ['ok', sorted(out, key=lambda x: x[0])]
+        except Exception as e:
+            snap['producers'][n] = ['err', type(e).__name__]
     return snap
 
 
